@@ -77,7 +77,7 @@ class Prop(PropBase):
 
     def stream(self, rng, t, slot, sname, par=False, tz=0):
         """one instance's scenario text (as instance 0) with the variant forced by its slot"""
-        cfg = scen.rand_cfg(rng, dense=rng.randrange(2), lclock=1 if par else rng.randrange(2), pktcb=rng.randrange(2), wait=rng.randrange(2), tz=tz,
+        cfg = scen.rand_cfg(rng, dense=rng.randrange(2), lclock=1 if par else rng.randrange(2), pktcb=1 if par else rng.randrange(2), wait=rng.randrange(2), tz=tz,
                             **(dict(mode=3, nblk=rng.choice([1, 2, 5])) if rng.random() < 0.6 else {}))
         kw = dict(host=not cfg.lclock, residual=True, temp_query=True)
         if t == 'RSBP':
